@@ -61,7 +61,9 @@ Canon(v, hk, b) ==
     [] v = 7 /\ hk = "ch" -> W7!CanonCH(b) [] v = 7 /\ hk = "chv" -> W7!CanonCHV(b)
 
 Expressible(v, p) == IF v = 6 THEN W6!Expressible(p) ELSE W7!Expressible(p)
-\* accepted by the reader but refused / asserted on by the writer (observations, DESIGN section 6)
+\* accepted by the reader but refused / asserted on by the writer: known findings F3, F4 of C06
+GapName(p) == IF p.t = "connless" THEN "accepted-unwritable:connless-payload-over-1390"
+              ELSE "accepted-unwritable:v7-response-token-ffffffff"
 KnownGap(v, p) ==
   \/ p.t = "connless" /\ Len(p.data) > MAX_PAYLOAD
   \/ v = 7 /\ p.t = "ctrl" /\ p.c \in {"connect", "token"} /\ p.rt = TOKEN_NONE
@@ -178,10 +180,15 @@ SameChunks(list, data, cl) ==
 \* hascl: the chunk area of p was built by the library's write_chunk from the chunk list cl
 \* strict: also demand the absence of warnings (C05); C06 only asks that the value survives
 PropRT(v, blk, hascl, cl, strict) ==
-  \* outside the writer's domain nothing is promised.  For generated values (strict) the domain is
-  \* Expressible; for values the reader accepted only the documented gaps are exempt, so that a reader
-  \* that accepts anything else the writer cannot express is caught.
-  IF (strict /\ ~Expressible(v, blk.p)) \/ (~strict /\ KnownGap(v, blk.p)) THEN {}
+  \* For generated values (strict, C05) nothing is promised outside the writer's domain Expressible.
+  \* Values the reader accepted (C06) must all survive write -> read.
+  IF strict /\ ~Expressible(v, blk.p) THEN {}
+  ELSE IF ~strict /\ KnownGap(v, blk.p)
+  THEN \* the two recorded findings F3 / F4: reported under their own names (unless the value does
+       \* survive write -> read, i.e. the gap has been closed); any other unwritable value falls
+       \* through to the general clauses below
+       IF blk.wr.r = "ok" /\ blk.rd.out.r = "ok" /\ blk.rd.out.p = blk.p THEN {}
+       ELSE {GapName(blk.p)}
   ELSE
     Cond("write-panics", blk.wr.r \in {"ok", "err"})
     \cup Cond("write-outside-buffer", blk.wcanary)
